@@ -16,7 +16,7 @@ T = {
          "Every D/R line emitted by the real daemon is judged against the input history (required data, unanswered queries, +! without account, NO replies) over all arrival orders of the data items x service tables x reply scripts, timeout/hurry-up inserted at every position; random histories with SIGUSR1 reloads; service tables of 31-40 services; directed reload scripts; real-timer id re-use judged by a one-sided clock oracle.",
          "Required items are read from the policy line the daemon itself prints; timeouts are fired through the guarded hook exactly as the one-shot timer would.", "4/C02"),
  "C03": ("exploration", "runtime trace monitor (bounded-progress oracle evaluated after every step) + stats cross-check",
-         "After every input line the monitor checks that no open client satisfies all release conditions without a verdict in that same step; histories weight late/duplicate/unexpected replies, repeated passwords, timeouts; daemon crash counts as everybody stuck.",
+         "After every input line the monitor checks that no open client satisfies all release conditions without a verdict in that same step; histories weight late/duplicate/unexpected replies, repeated passwords, timeouts; daemon crash counts as everybody stuck; bursts of 40-700 clients written in one piece on the unhooked channel are judged when the daemon sleeps in epoll_wait with its input drained (read from /proc and the pipe, not a deadline).",
          "Bounded form of liveness as the statement itself gives it (same step); generator restricted to unambiguous replies and passwords.", "4/C03"),
  "C04": ("exploration", "differential runtime monitoring: same history with and without stray replies, outputs compared step by step",
          "Pairs of real-daemon runs that differ only by inserted stray replies/unlinked notices (stale serial, unknown/not-awaited service, malformed or near-miss tag) must produce identical output; any output in the step of the stray line is a violation; directed slot-reuse (reload) and serial-wrap (2^8..2^16 connections) scenarios; tables of 33-64 services with replies from the ones the daemon refused, judged by the trace monitor on the sanitized and the plain build.",
@@ -31,7 +31,7 @@ T = {
          "Each client script is run alone, then merged with others in many order-preserving interleavings; the projection of the daemon's output onto each client (serial renumbered) must equal the solo conversation; the guarded audit hook checks the request table's structure; directed sets around reloads and id re-use; real 2 s request timers next to each other judged by a one-sided clock oracle.",
          "Replies are addressed symbolically (n-th query to service s) so scripts are interleaving-independent.", "4/C07"),
  "C08": ("exploration", "sanitizers (ASan+UBSan+LSan) + exit-status/hang watchdog + differential (chunking, junk) on hostile byte streams",
-         "Grammar-aware hostile streams, every/sampled prefixes (peer death), read-chunk segmentations via the guarded chunk hook, transient read errors injected by an LD_PRELOAD shim, real-timer interruptions (1.6 s and 11.3 s, the latter so that statistics report requests older than ten seconds), streams interrupted by a SIGUSR1 that re-lists the modules, and junk-line insertion; oracle = clean exit, no sanitizer report, no hang, identical treatment of the good lines.",
+         "Grammar-aware hostile streams, every/sampled prefixes (peer death), read-chunk segmentations via the guarded chunk hook, transient read errors injected by an LD_PRELOAD shim, real-timer interruptions (1.6 s and 11.3 s, the latter so that statistics report requests older than ten seconds), streams interrupted by a SIGUSR1 that re-lists the modules, dense bursts of short lines, and junk-line insertion; hostile streams and odd rule tables on the unsanitized build under valgrind memcheck; the well-formed workloads of C11 / C12 / C06 and random histories under this oracle alone; oracle = clean exit, no sanitizer report, no hang, identical treatment of the good lines.",
          "A clean sanitizer run is not memory safety (non-adjacent/intra-object overflows are missed); bounded stream sizes.", "4/C08"),
  "C09": ("exploration", "runtime monitor: output grammar + independent address parser on the unhooked channel",
          "Every stdout line from the banner on must match one production of the message grammar; client messages must carry the announced id, an address text that Python's ipaddress reads as the announced value, and the announced port; run with no hook commands and with warning/error-producing events and several logs sections.",
@@ -52,7 +52,7 @@ T = {
          "Valid generated files truncated at every byte and with hostile single-byte substitutions, loaded on top of several prior configurations in a harness linking the unmodified config code: no sanitizer report, termination, and on a reported error an unchanged live-tree dump and an empty hook log; a few files carry modification times in the future or far past.",
          "Files <= 4 KiB; parser leaks on error paths are counted, not judged.", "4/C14"),
  "C15": ("exploration", "runtime monitor: expected tree by construction + differential vs fresh process + hook log, under ASan/LSan",
-         "Sequences of valid files over a small name/type universe with registrations before/between/after loads: values = last file or default, no unregistered leftovers, dump equals that of a fresh process on the last file, idempotent reload silent, hooks delivered on effective change.",
+         "Sequences of valid files over a small name/type universe with registrations before/between/after loads: values = last file or default, no unregistered leftovers, dump equals that of a fresh process on the last file, idempotent reload silent, hooks delivered on effective change, as many file descriptors open after a history as before it.",
          "Spurious hooks on changed content are tolerated.", "4/C15"),
  "C16": ("exploration", "round-trip runtime monitor: generated tree -> random admissible rendering -> parse -> dump comparison; feature attribution",
          "Random trees rendered with independently toggled layout features (quoting, escapes, list forms, terminators, comments, whitespace, repeats) must dump as the tree; typed values compared with their arithmetic meaning; unparsable typed values must leave the previous value in force.",
@@ -61,13 +61,13 @@ T = {
          "For (old,new) configuration pairs covering add/remove/change-in-place of services and rules, a daemon reloaded by a real SIGUSR1 must treat a probe set exactly like a daemon started on the new file (files overwritten in place, renamed into place, renamed with an old modification time); input already queued when the reload happens is judged by the order of lines in the output: old rules before the guarded reload marker, new rules after it.",
          "Reload completion observed through the guarded marker hook; pre-reload clients are finished or disconnected first.", "4/C17"),
  "C18": ("exploration", "reference-model monitor of the routing table vs destination files read back",
-         "Random logs sections (all operators, comma lists, *, invalid entries, shared destinations) and reload sequences; one uniquely numbered message per (facility, severity); file membership must equal the model's, lines complete and attributed.",
+         "Random logs sections (all operators, comma lists, *, invalid entries, shared destinations) and reload sequences; one uniquely numbered message per (facility, severity); file membership must equal the model's, lines complete and attributed, the section as dumped after use equal to the section as written; one destination may be unwritable (/dev/full).",
          "Severity lists without empty items; fatal messages emitted in forked children.", "4/C18"),
  "C19": ("exploration", "complete shape-graph exploration + long random sequences against a sorted-array model with structural audit, under ASan/UBSan/LSan",
-         "Breadth-first exploration of every reachable splay-tree shape over universes of 1..7 keys applying every operation from every shape; long random sequences per stock comparator including extreme ints; comparator laws; after every operation result vs model, structural audit, cleanup exactly-once accounting.",
+         "Breadth-first exploration of every reachable splay-tree shape over universes of 1..7 keys applying every operation from every shape; long random sequences per stock comparator including extreme ints; sets of 1500-60000 keys filled in key order and operated on at the far end; comparator laws; after every operation result vs model, structural audit, cleanup exactly-once accounting.",
          "Harness supplies xmalloc so that only src/set.c is linked.", "4/C19"),
  "C20": ("exploration", "event-log monitor over stub modules loaded by the real daemon, enumerated dependency graphs",
-         "All labelled DAGs on <=4 (quick) / 5 (thorough) stub modules x listing orders, cyclic graphs, missing modules, dependencies declared by module_antidepends, partial listings in which a back end pulls in its front end, constructor-less and hook-less modules, slow destructors and graphs of 260-300 modules, run through the real `iauthd-c -k`; ordering constraints on constructor/post-init/destructor events and exit status.",
+         "All labelled DAGs on <=4 (quick) / 5 (thorough) stub modules x listing orders, cyclic graphs, missing modules, dependencies declared by module_antidepends, partial listings in which a back end pulls in its front end, constructor-less and hook-less modules, slow destructors and graphs of 260-300 modules, run through the real `iauthd-c -k`, and live runs reloaded with another modules list and stopped by SIGHUP; ordering constraints on constructor/post-init/destructor events and exit status.",
          "Stub modules are copies of one fixture shared object reading the graph from the environment.", "4/C20"),
 }
 
